@@ -266,6 +266,7 @@ type scen struct {
 	inOk       int // is the candidate on the active chain at the end when it is valid
 	skipPow    int // the delivery does not compare the hash with the target
 	store      int // the delivery stores blocks (0 for a template check)
+	nowAdd     int // seconds the node's clock is advanced before the verdict that counts (clock context)
 }
 
 // describe renders the fact tokens "P C H B S tx…" for candidate `blk` on top of path `p`.
@@ -280,7 +281,7 @@ func describe(p *path, b *builder, blk *wire.MsgBlock, bip34HashOk bool, s scen)
 
 	// context
 	fmt.Fprintf(&sb, " %d,%d,%d,%x,%d", height, p.mtp(), p.times[len(p.times)-1],
-		chaincfg.RegressionNetParams.PowLimitBits, v.now())
+		chaincfg.RegressionNetParams.PowLimitBits, v.now()+int64(s.nowAdd))
 
 	// header
 	hh := blk.Header.BlockHash()
@@ -310,7 +311,7 @@ func describe(p *path, b *builder, blk *wire.MsgBlock, bip34HashOk bool, s scen)
 		commit = commitStatus(txs)
 	}
 	fmt.Fprintf(&sb, " %d,%d,%d,%d,%d,%d", blk.SerializeSizeStripped(), blk.SerializeSize(), b2i(merkleOk), b2i(dup), commit, cbH)
-	fmt.Fprintf(&sb, " %d,%d,%d,%d,%d", s.hOk, s.hFail, s.inOk, s.skipPow, s.store)
+	fmt.Fprintf(&sb, " %d,%d,%d,%d,%d,%d", s.hOk, s.hFail, s.inOk, s.skipPow, s.store, s.nowAdd)
 
 	// transactions, against the utxo set as it evolves inside the block
 	view := map[wire.OutPoint]coin{}
